@@ -3,6 +3,10 @@ import XModel.TableThms
 # C07 — table rows addressed by name resolve against the current index column
 Model: `XModel/Table.lean` (`getRowCache`, `getRowIndex`, `resolveCellRow`, `setCell`, `setCol`, `delCol`),
 the functions the `table` driver suite executes in the correspondence run.
+
+**Which tree.**  The model transcribes `/repo` as it stands now: the pinned commit plus the `fix:` commits recorded in
+`/verif/KNOWN_FINDINGS.json` (status `fixed`).  Where a theorem below rests on repaired code — the cache dropped on index-cell writes, `count_dict.get(name, 0)` for absent names — it is false of
+the tree as first pinned; the witnesses are kept (defects D9, D11).
 -/
 namespace Properties.C07
 open TableM Cache
